@@ -16,7 +16,9 @@ _V = st.integers(0, 11)
 def script(side: str, max_steps: int) -> t.Any:
     W = history._weighted
     base = history.client_steps(max_steps, drains=False) if side == "client" else history.server_steps(max_steps, drains=False)
-    register = st.fixed_dictionaries({"op": st.just("register"), "what": st.sampled_from(["control", "filter", "auth"])})
+    variant = "A" if side == "client" else "B"
+    register = st.fixed_dictionaries({"op": st.just("register"), "what": st.sampled_from(["control", "filter", "auth"]),
+                                      "variant": st.sampled_from(["A", "B"])})
     recv_custom = st.fixed_dictionaries({"op": st.just("recv-custom"), "what": st.sampled_from(["control", "filter", "auth"]), "v": _V})
     extra = [(3, register), (3, recv_custom)]
     if side == "client":
@@ -207,6 +209,38 @@ class Registrations(Part):
                             out.append(Violation("unregistered-session-affected:control", f"session {name} (registered on A: {c['registered']}): got {got!r}"))
                     elif got != "ProtocolError":
                         out.append(Violation(f"unregistered-session-affected:{what}", f"session {name} (registered on A: {c['registered']}): got {got!r}"))
+        # another session that registers a DIFFERENT class for the same OID / id decodes with its own class,
+        # whichever session decoded first
+        for what in whats:
+            if what not in c["registered"]:
+                continue
+            CB = custom.classes("B")
+            data, want = _bytes_with(what, side)
+            wantB = dict(want)
+            if what == "control":
+                wantB["controls"] = [("custom-control-B", True, 4242)]
+            elif what == "filter":
+                wantB["filter"] = ("custom-filter-B", "hello")
+            else:
+                wantB["auth"] = ("custom-auth-B", "joe", "secret")
+            for first in ("A", "B"):
+                import copy
+
+                a2 = copy.deepcopy(A)
+                b2 = sess.new(side)
+                getattr(b2, reg[what])(CB[what])
+                order = [("A", a2, want), ("B", b2, wantB)] if first == "A" else [("B", b2, wantB), ("A", a2, want)]
+                for name, s, w in order:
+                    if side == "client":
+                        s.extended_request("1.2.3")
+                        s.data_to_send()
+                    try:
+                        got2: t.Any = [absval.to_abstract(m, decoded=True) for m in s.receive(data)]
+                    except BaseException as e:
+                        got2 = f"{type(e).__name__}"
+                    if got2 != [w]:
+                        out.append(Violation(f"same-id-different-class-decoded-with-wrong-class:{what}",
+                                             f"session {name} (decoding order {first} first): got {got2!r}, expected {[w]!r}"))
         # B can still register by itself (no leak of A's registration into B's duplicate check)
         for what in ["control", "filter", "auth"]:
             b2 = sess.new(side)
